@@ -18,7 +18,8 @@ def handlers : List (String × Handler) := [
   ("io.parse", IO.parse),
   ("io.read", IO.read),
   ("io.tables", IO.tables),
-  ("io.prim", IO.prim)
+  ("io.prim", IO.prim),
+  ("c16.spec", IO.autocorrectSpec)
 ]
 
 def dispatch (j : Json) : Json :=
